@@ -31,6 +31,7 @@ type EntryResult struct {
 	Asserts      map[string]*assertStat `json:"asserts"`
 	Covers       map[string]int         `json:"covers"`
 	Violations   []PathRec              `json:"violations"`
+	Faults       []PathRec              `json:"faults"`
 	Problems     map[string]int         `json:"problems"` // incomplete / unsupported / panic messages
 	ProblemPaths map[string][]int64     `json:"problem_paths"`
 	Funcs        map[string]int         `json:"funcs"`
@@ -112,9 +113,13 @@ func runPath(ex *Exec, fn *ssa.Function, item workItem) (rec PathRec) {
 				rec.Outcome = p.out
 				rec.Msg = p.msg
 				rec.Violation = ex.violation
+				if p.out == OutPanic || p.out == OutDeadlock || p.out == OutNonTerm {
+					rec.Violation = ex.modelForPath(string(p.out) + ": " + p.msg)
+				}
 			case *goPanicT:
 				rec.Outcome = OutPanic
 				rec.Msg = "panic: " + p.msg
+				rec.Violation = ex.modelForPath(rec.Msg)
 			default:
 				rec.Outcome = OutUnsupported
 				rec.Msg = fmt.Sprintf("engine fault: %v", r)
@@ -282,6 +287,9 @@ func main() {
 						}
 					case OutInfeasible:
 					default:
+						if rec.Violation != nil && len(res.Faults) < 20 {
+							res.Faults = append(res.Faults, rec)
+						}
 						key := string(rec.Outcome) + ": " + rec.Msg
 						res.Problems[key]++
 						if _, ok := res.ProblemPaths[key]; !ok {
